@@ -880,6 +880,8 @@ impl DirectAddrUpdateState {
                 // Release the net_reporter lock before signalling completion: the actor
                 // reacts to the signal with `try_run`, which must be able to take the lock,
                 // otherwise a pending update would stay pending until the next trigger.
+                #[cfg(feature = "verif-hooks")]
+                crate::verif_hooks::pause("netreport.before_unlock");
                 drop(net_reporter);
                 #[cfg(feature = "verif-hooks")]
                 crate::verif_hooks::pause("netreport.between_unlock_and_done");
